@@ -989,6 +989,33 @@ static void run_sig(const std::string& spec)
     R.subspaces.push_back(sub);
 }
 
+// generic walk with real make/unmake on ONE engine object: the state checks of the selected
+// property are applied to positions *reached by play* (stale state left by do_move/undo_move shows)
+static void prop_tree(Position& e, const ref::Pos& p, int depth)
+{
+    ++g_tree_nodes;
+    std::vector<ref::Mv> legal;
+    ref::gen_legal(p, legal);
+    if (PROP == "C01") c01_state(e, p, legal);
+    else if (PROP == "C02") c02_state(e, p, legal);
+    else if (PROP == "C04") c04_state(e, p, legal);
+    else if (PROP == "C07") c07_state(e, p, legal);
+    else if (PROP == "C15") c15_state(e, p, legal);
+    else if (PROP == "C17") c17_state(e, p, legal);
+    else if (PROP == "C18") c18_state(e, p);
+    if (depth == 0 || R.out_of_time()) return;
+    ref::Pos t;
+    for (auto& m : legal)
+    {
+        ref::make(p, m, t);
+        Move em = to_engine(m);
+        MoveInfo mi = e.do_move(em);
+        prop_tree(e, t, depth - 1);
+        e.undo_move(em, mi);
+        R.count("tree_edges");
+    }
+}
+
 static void run_tree(const std::string& fen, int depth)
 {
     mc::Subspace sub;
@@ -1004,12 +1031,9 @@ static void run_tree(const std::string& fen, int depth)
     else if (PROP == "C16")
         c16_tree(e, root, depth);
     else
-    {
-        fprintf(stderr, "tree space not defined for %s\n", PROP.c_str());
-        exit(2);
-    }
+        prop_tree(e, root, depth);
     sub.states = g_tree_nodes;
-    sub.transitions = R.counters["edges"] - e0 + (PROP == "C16" ? g_tree_nodes : 0);
+    sub.transitions = R.counters["edges"] - e0 + (PROP == "C16" ? g_tree_nodes : 0) + R.counters["tree_edges"];
     sub.exhaustive = !R.out_of_time();
     R.sample(wit(root).s("space", sub.name).str());
     R.subspaces.push_back(sub);
